@@ -1,7 +1,7 @@
 #!/bin/bash
 # run_all_seeds.sh — apply every seeded change (seeded/C*/patch.diff) to /repo in turn, run the quick
 # check of its property, revert; prints CAUGHT/MISSED per seed and a summary. Expected MISSED:
-# C01-a, C16-r2 and C08-r4b (see their meta.json: deliberately not counted as violations).
+# C01-a, C16-r2, C08-r4b, C06-r6b, C15-r6b, C17-r6a (see their meta.json: deliberately not counted as violations).
 cd /verif || exit 3
 caught=0; missed=""
 for d in seeded/C*/; do
